@@ -201,9 +201,12 @@ func comparePair(p *pair, env hres.Env) (*cmpResult, error) {
 		specEdges[specKey[e.From]+"--"+e.Action+"->\n"+specKey[e.To]] = true
 	}
 	// Go side
-	r := sys.BFS(ss.BFSOptions{Workers: env.Workers, Deadline: env.Deadline, Constraint: p.Constraint, KeepGraph: true, NoMemo: false})
+	// the Go side gets its own generous deadline: a pair is either compared completely or reported as
+	// not compared - a slow machine must never turn into a verdict
+	goDeadline := time.Now().Add(15 * time.Minute)
+	r := sys.BFS(ss.BFSOptions{Workers: env.Workers, Deadline: goDeadline, Constraint: p.Constraint, KeepGraph: true, NoMemo: false})
 	if !r.Exhaustive {
-		return nil, fmt.Errorf("Go-side search not exhaustive (%s)", r.Cap)
+		return nil, errNotCompared{fmt.Sprintf("Go-side search not exhaustive (%s)", r.Cap)}
 	}
 	if r.MemoMismatch > 0 {
 		return nil, fmt.Errorf("transition memo disagrees with the real code: %s", r.MemoFirstMismatch)
@@ -273,6 +276,10 @@ func comparePair(p *pair, env hres.Env) (*cmpResult, error) {
 	return res, nil
 }
 
+type errNotCompared struct{ why string }
+
+func (e errNotCompared) Error() string { return e.why }
+
 func tailStr(s string, n int) string {
 	if len(s) > n {
 		return s[len(s)-n:]
@@ -300,6 +307,7 @@ func TestCheck(t *testing.T) {
 		var per []any
 		var samples []any
 		var notCovered []string
+		allCompared := true
 		for _, p := range pairs() {
 			if only != "" && p.Name != only {
 				continue
@@ -309,6 +317,11 @@ func TestCheck(t *testing.T) {
 				continue
 			}
 			c, err := comparePair(p, env)
+			if nc, ok := err.(errNotCompared); ok {
+				notCovered = append(notCovered, p.Name+" (not compared: "+nc.why+")")
+				allCompared = false
+				continue
+			}
 			if err != nil {
 				t.Fatalf("pair %s: %v", p.Name, err)
 			}
@@ -335,7 +348,7 @@ func TestCheck(t *testing.T) {
 			}
 		}
 		res.Coverage = map[string]any{"states": states, "transitions": trans, "traces_validated_against_impl": trans, "samples": samples, "pairs": per, "not_covered": notCovered,
-			"exhaustive": true, "explanation": "per pair: complete TLC state graph (-dump dot,actionlabels) == complete Go-side graph (every reachable spec state injected into the real generated critical sections; all choice resolutions); traces_validated = every edge of the model's graph is matched by an execution of the implementation"}
+			"exhaustive": allCompared, "explanation": "per pair: complete TLC state graph (-dump dot,actionlabels) == complete Go-side graph (every reachable spec state injected into the real generated critical sections; all choice resolutions); traces_validated = every edge of the model's graph is matched by an execution of the implementation"}
 		return res
 	})
 }
